@@ -128,7 +128,7 @@ func (f *upstreamLimiter) Load(name string) (flowcontrol.FlowControl, bool) {
 			reason = "remote flowcontrol is not synced"
 		}
 	case flowcontrol.LocalFlowControls:
-		return fcw.LocalFlowControl(), true
+		return f.loadLocal(fcw)
 	default:
 		reason = fmt.Sprintf("unkonwn rateLimiter type %s", f.rateLimiter)
 	}
@@ -143,7 +143,20 @@ func (f *upstreamLimiter) Load(name string) (flowcontrol.FlowControl, bool) {
 	}
 
 	// use local limiter by default
-	return fcw.LocalFlowControl(), true
+	return f.loadLocal(fcw)
+}
+
+// loadLocal returns the local limiter a request has to acquire from and release to.
+// It is the limiter currently behind the wrapper rather than the wrapper itself, so
+// that a request which is still in flight when the schema type changes releases the
+// limiter it acquired from instead of freeing a slot of the new one.
+func (f *upstreamLimiter) loadLocal(fcw remote.FlowControlCache) (flowcontrol.FlowControl, bool) {
+	fc := fcw.LocalFlowControl().Current()
+	if fc == nil {
+		// stored but not synced yet
+		return nil, false
+	}
+	return fc, true
 }
 func (f *upstreamLimiter) Sync(flowControls proxyv1alpha1.FlowControl) {
 	f.syncLocalFlowControls(flowControls)
